@@ -177,6 +177,10 @@ Qed.
 
 End Path.
 
+(* the cap of the repaired rank_cnds is applied to both sides alike *)
+Lemma cap_dist_ext d1 d2 q e : d1 = d2 -> cap_dist d1 q e = cap_dist d2 q e.
+Proof. intros ->. reflexivity. Qed.
+
 Lemma trail_shf_last s : (1 <= trail_shf s)%nat -> exists s0, s = s0 ++ [Shf].
 Proof.
   unfold trail_shf. intros H. destruct (rev s) as [|m r] eqn:E; cbn [lead_shf] in H; [lia|].
@@ -205,7 +209,7 @@ Notation node_success := (node_success g A input PN).
 
 (* how far plain parsing gets from the node's own configuration *)
 Definition node_far (n : node) : nat :=
-  parse_far g A input ifuel (length input + 2) (n_stk n) (n_la n) (p0 + TRY).
+  cap_dist (parse_far g A input ifuel (length input + 2) (n_stk n) (n_la n) (p0 + TRY)) (n_la n) (p0 + TRY).
 
 Lemma path_replay n s' : node_ok n -> In s' (paths (n_rep n)) ->
   exists moves stk' Sk',
@@ -230,7 +234,7 @@ Proof.
   split; [|exists Sk'; exact Happly].
   assert (Hsr : srun g A input ifuel s' stk0 p0 = Some (Sk', n_la n))
     by (apply (srun_is_apply_seq g A input ifuel s' 0%nat); exact Happly).
-  unfold far, node_far. rewrite Hsr.
+  unfold far, node_far. rewrite Hsr. apply cap_dist_ext.
   assert (Hnp : (length input <? n_la n)%nat = false) by (apply Nat.ltb_ge; exact Hla).
   unfold Mirror.node_success in Hsucc. apply orb_true_iff in Hsucc.
   assert (Hcase : action A (vtop A (n_stk n)) (la g input (n_la n)) = Accept \/
